@@ -39,6 +39,7 @@ def cases(draw, tier="quick"):
     if mode == "apply_configs_prefix":
         case["prefix_cut"] = draw(st.integers(1, 3))
     case["pre_eval"] = draw(st.sampled_from([False, False, True]))
+    case["repeat"] = draw(st.sampled_from([1, 1, 1, 2]))
     return case
 
 
@@ -103,11 +104,18 @@ def check(case):
         model_case = dict(case, disabled=sorted(eff_disabled))
         drv = case["driver"]
         active = dyn.active_set(case, drv)
-        broker, escaped = dyn.execute(run_case, b, drv)
-        if escaped is not None:
-            raise Violation("evaluation raised %s: %s" % (type(escaped).__name__, escaped))
         ex = dyn.model(model_case, active)
-        return compare(case, model_case, b, broker, ex, active)
+        graphs = {}
+        info = None
+        for _rep in range(int(case.get("repeat", 1))):
+            # the same graph object evaluated again with a fresh broker must decide the same way
+            b.log[:] = []
+            b.raised.clear()
+            broker, escaped = dyn.execute(run_case, b, drv, graphs=graphs)
+            if escaped is not None:
+                raise Violation("evaluation raised %s: %s" % (type(escaped).__name__, escaped))
+            info = compare(case, model_case, b, broker, ex, active)
+        return info
     finally:
         dyn.cleanup(b)
         dr.ENABLED = saved_enabled
